@@ -12,6 +12,8 @@ def applyDelta : List (Nat × Nat × Int) → Nat → Nat
 
 def isSpace (c : Nat) : Bool := inRanges isSpaceRanges c
 def isPunct (c : Nat) : Bool := inRanges isPunctRanges c
+def isPrint (c : Nat) : Bool := inRanges isPrintRanges c
+def isControl (c : Nat) : Bool := inRanges isControlRanges c
 def isLetter (c : Nat) : Bool := inRanges isLetterRanges c
 def isUpper (c : Nat) : Bool := inRanges isUpperRanges c
 def isLower (c : Nat) : Bool := inRanges isLowerRanges c
